@@ -52,7 +52,8 @@ def replay_harness(ctx, casefile, toks):
     return 1, "no replay for this kind"
 
 
-OPN = {1: 3, 10: 3, 2: 2, 3: 2, 5: 2, 4: 5, 6: 3, 8: 4, 9: 1, 11: 3, 12: 4, 13: 3, 14: 2}
+OPN = {1: 3, 10: 3, 2: 2, 3: 2, 5: 2, 4: 5, 6: 3, 8: 4, 9: 1, 11: 3, 12: 4, 13: 3, 14: 2, 15: 6}
+FORCE = {0: "0", 1: "1", 2: "1(empty reason string)"}
 ST = {6: "Connect-returned-nil", 0: "runnable?", 1: "waiting-for-direct", 2: "in-OpenStream(conn %d)", 3: "in-dialPeer", 4: "OK(conn %d)", 5: "ERR(%d)"}
 ERR = {1: "ErrNoConn", 2: "ErrLimitedConn", 3: "ctx", 4: "open-failed", 5: "ErrNoAddresses", 6: "ErrNoGoodAddresses",
        7: "ErrAllDialsFailed", 8: "max-dial-attempts"}
@@ -98,7 +99,11 @@ def op_str(op):
     if c == 3:
         return "conn %d Close()" % op[1]
     if c == 4:
-        return "%s(allow_limited=%d force_direct=%d no_dial=%d)" % ("DialPeer" if op[1] else "NewStream", op[2], op[3], op[4])
+        return "%s(allow_limited=%d force_direct=%s no_dial=%d)" % ("DialPeer" if op[1] else "NewStream", op[2], FORCE.get(op[3], op[3]), op[4])
+    if c == 15:
+        return ("%s(allow_limited=%d force_direct=%s no_dial=%d) AND a conn (limited=0 proxy=%d) arrives while it runs: addConn is started when the "
+                "call has just looked at the connection list in waitForDirectConn and has not registered yet (else: once the call has blocked)"
+                % ("DialPeer" if op[1] else "NewStream", op[2], FORCE.get(op[3], op[3]), op[4], op[5]))
     if c == 5:
         return "cancel call %d" % op[1]
     if c == 6:
@@ -108,7 +113,7 @@ def op_str(op):
     if c == 8:
         return "dial on addr %d returns %s" % (op[1], ("conn(limited=%d)" % op[3]) if op[2] else "error")
     if c == 12:
-        return "BasicHost.Connect(allow_limited=%d force_direct=%d no_dial=%d)" % (op[1], op[2], op[3])
+        return "BasicHost.Connect(allow_limited=%d force_direct=%s no_dial=%d)" % (op[1], FORCE.get(op[2], op[2]), op[3])
     if c == 11:
         return "Conn.NewStream on conn %d (allow_limited=%d)" % (op[1], op[2])
     if c == 9:
@@ -200,7 +205,10 @@ if __name__ == "__main__":
              "before use; force-direct and ordinary dials sharing one worker, with and without an existing relayed conn) followed by "
              "4-25 random stimuli (conn arrives limited/proxy/already-closed, conn reports closed, conn Close, NewStream/DialPeer with "
              "all 8 option sets, cancel, OpenStream returns ok/error, peerstore addrs change, dial returns conn/error, time advances by "
-             "DialPeerTimeout). After every stimulus: waiter-list length, Connectedness, every call's state/result, parked dials with "
+             "DialPeerTimeout; every force-direct option is set with a reason or with the EMPTY reason string, half and half; "
+             "wire op 15: a NewStream/DialPeer call during which a non-limited conn arrives - addConn is started from the IsClosed "
+             "callback of the only usable (limited) conn when the call is inside waitForDirectConn's bestConnToPeer, the call is held "
+             "at the following Conn.Stat() until addConn is past its notify section or parked on the waiter-list lock). After every stimulus: waiter-list length, Connectedness, every call's state/result, parked dials with "
              "their force-direct flag are compared with the Coq model (conform_case) and judged by the property monitor (monitor_case). "
              "Non-trivial = some call waited for a direct connection or a dial was parked; distinct = distinct case lines among those.",
         describe=describe, key=key, what=what, crosscheck=150,
